@@ -88,6 +88,11 @@ def check(pid, tier, seed, replay=None):
     if forb and not proof_broken:
         proof_broken = "forbidden vernacular: %s" % forb[:5]
     stated, closed = V.count_obligations(closure)
+    coqchk_note = "not run in the quick tier"
+    if tier == "thorough" and ok_build:
+        ok_chk, coqchk_note = V.coqchk_all()
+        if not ok_chk and not proof_broken:
+            proof_broken = "coqchk does not accept the compiled development or reports axioms / disabled checks: " + coqchk_note
 
     # ---- 2. tie
     ok_drv, drv_out = V.build_driver()
@@ -196,6 +201,7 @@ def check(pid, tier, seed, replay=None):
         "trusted_base": TRUSTED_BASE + spec.get("trusted_extra", []),
         "theorems": [{"name": n, "axioms": a} for n, a in assumptions],
         "axioms_reported": axioms_used,
+        "coqchk": coqchk_note,
         "proof_files": closure,
         "evaluations": evaluations,
         "distinct_nontrivial": nontrivial,
